@@ -46,7 +46,26 @@ pub fn run(env: &Env) {
             }
         }
     }
-    env.ctx.set_rule("roots = suites x keys{k0,k1,k2} x 7 headers x ALL message tuples of length 0..3 over the letter alphabet, plus L in {4..16,255,256,257[,1000,4096]} x {none,16B} x {k0,k1}; moves: sign -> verify -> to_bytes/from_bytes -> verify, reference sign/verify, None/empty square; a state is (suite,key,header,messages); non-trivial = a signature was produced by the implementation and compared with the reference bytes");
+    // keys produced by the implementation's own KeyGen at the boundaries of its arguments (every secret key the API can hand out)
+    for s in suites() {
+        for (ikm_len, info_len, dst_len) in [(32usize, Some(0usize), None), (32, Some(1), None), (32, Some(65534), None), (32, Some(65535), None), (33, None, None), (64, Some(255), Some(1usize)), (255, Some(256), Some(255)), (4096, None, Some(16))] {
+            let ikm = mccore::fill(seed, "c01-ikm", ikm_len);
+            let info = info_len.map(|n| mccore::fill(seed, "c01-info", n));
+            let dst = dst_len.map(|n| mccore::fill(seed, "c01-dst", n));
+            let id = format!("kg(ikm{},info{:?},dst{:?})", ikm_len, info_len, dst_len);
+            env.ctx.step();
+            match z(s).keygen(&ikm, info.as_deref(), dst.as_deref()) {
+                mccore::O::Ok((sk, pk)) => {
+                    let k = Key { id: Box::leak(id.clone().into_boxed_str()), suite: s, sk, pk };
+                    for (hn, h) in hdr_small(seed).into_iter().filter(|x| x.0 != "empty") { for (ln, l) in lists.iter().filter(|l| l.1.len() <= 1).take(3) {
+                        roots.push(Root { id: format!("{}/{}/{}/{}", s.name(), k.id, hn, ln), suite: s, key: k.clone(), hname: hn.clone(), header: h.clone(), msgs: l.clone(), shape: ln.clone() });
+                    } }
+                }
+                o => env.ctx.violation("C01:keygen-refuses-valid-key-material", &format!("KeyGen(ikm {} octets, key_info {:?} octets, key_dst {:?} octets) must succeed: {}", ikm_len, info_len, dst_len, o.describe()), env.case(&format!("{}/{}", s.name(), id), json!({"suite": s.name(), "ikm_len": ikm_len, "key_info_len": info_len, "key_dst_len": dst_len}))),
+            }
+        }
+    }
+    env.ctx.set_rule("keys from the implementation's KeyGen at argument boundaries (ikm 32/33/64/255/4096, key_info None/0/1/255/256/65534/65535, key_dst None/1/16/255) sign and verify; roots = suites x keys{k0,k1,k2} x 7 headers x ALL message tuples of length 0..3 over the letter alphabet, plus L in {4..16,255,256,257[,1000,4096]} x {none,16B} x {k0,k1}; moves: sign -> verify -> to_bytes/from_bytes -> verify, reference sign/verify, None/empty square; a state is (suite,key,header,messages); non-trivial = a signature was produced by the implementation and compared with the reference bytes");
     env.ctx.extra("deviation_bound_completed", json!(0));
     crate::hist::explore_families(env, &['S'], "signing histories");
     crate::hist::explore_families(env, &['V'], "verification histories");
